@@ -2,6 +2,7 @@
 from __future__ import annotations
 
 import io
+import os
 import zlib
 import logging
 import random
@@ -32,7 +33,7 @@ REQUIRED = {"capture.nothing_reaches_real_stream": {"quick": 1200, "thorough": 3
             "report.failing_step_has_exactly_its_scenarios_output": {"quick": 400, "thorough": 20000},
             "formatter.no_output_of_passing_scenarios": {"quick": 300, "thorough": 15000},
             "run.streams_restored_at_end": {"quick": 600, "thorough": 30000}}
-REQUIRED_SEEN = {"junit_forces_capture": ["with_some_switch_off"], "reported_step_status": ["failed", "error", "pending"], "switches": ["out1err1log1", "out1err1log0", "out1err0log1", "out1err0log0", "out0err1log1", "out0err1log0",
+REQUIRED_SEEN = {"junit_forces_capture": ["with_some_switch_off"], "failing_step_argument": ["doc_string", "table", "none"], "junit_output_habit": ["plain", "control_sequences"], "reported_step_status": ["failed", "error", "pending"], "switches": ["out1err1log1", "out1err1log0", "out1err0log1", "out1err0log0", "out0err1log1", "out0err1log0",
                               "out0err0log1", "out0err0log0"],
                  "log_habit": ["plain", "flush", "bulk", "peek", "tee_only"], "setup_logging_from_hook": ["DEBUG", "WARNING"],
                  "capture_switched_at_runtime": ["per scenario"],
@@ -393,6 +394,14 @@ def run_case(lab, mon, case, rng, sample=False):
                             mon.check("formatter.step_progress_shows_the_failure_report", need <= shown and step.name.split(" ")[0] in text2,
                                       lambda: W(formatter="progress2", scenario=s.name, step=step.name, status=step.status.name,
                                                 missing=sorted(need - shown)[:6]))
+                            # the plain formatter (also what --wip uses) prints the failure report below the step -- whether or not
+                            # the step carries a doc-string or a table
+                            shown_plain = set(fmarks)
+                            mon.seen("failing_step_argument", "doc_string" if step.text else ("table" if step.table else "none"))
+                            mon.check("formatter.plain_shows_the_failure_report", need <= shown_plain,
+                                      lambda: W(formatter="plain", scenario=s.name, step=step.name, status=step.status.name,
+                                                step_has=("doc_string" if step.text else ("table" if step.table else "no argument")),
+                                                missing=sorted(need - shown_plain)[:6]))
     if sample:
         mon.sample({"features": RB.case_texts(case), "args": args, "switches": sw, "markers_produced": len(printed),
                     "real_stdout_head": real_out[:200], "real_stderr_head": real_err[:200]})
@@ -475,6 +484,67 @@ def subprocess_case(mon, rng, case):
         mon.seen("passthrough_logging_project", "environment_without_before_all")
 
 
+CONTROL = ["\x1b[2K", "\x1b[K", "\x1b[1G", "\x1b[?25l", "\x1b[?25h", "\x1b[31m", "\x1b[0m", "\x1b[1A", "\x1b[31;1m", "\r"]
+
+
+def junit_report_case(lab, mon, rng):
+    """--junit: what the steps of a scenario wrote ends up in that scenario's test case of the JUnit report -- also when the output
+    is a progress bar / spinner full of terminal control sequences (erase line, cursor column, hide cursor, colours)."""
+    import shutil
+    import tempfile
+    from behave.reporter.junit import JUnitReporter
+    gen = {"p_nonpass": 0.5, "max_features": 1, "max_steps": 3, "p_stepless": 0.0, "outcomes": ["fail", "error"], "p_outline": 0.2}
+    case = RB.gen_case(rng, gen=gen, p_stop=0.0, p_dry=0.0, p_noskipped=0.0, tags=False)
+    outdir = tempfile.mkdtemp(prefix="bvm-c18-junit-")
+    produced = {}
+    habit = rng.choice(["plain", "control_sequences", "control_sequences"])
+
+    def step_plugin(state, context, text):
+        sc = getattr(context, "scenario", None)
+        sname, sid = (sc.name if sc is not None else "?"), text.split(" ")[0]
+        for chan, stream in (("out", sys.stdout), ("err", sys.stderr)):
+            m = marker("M", sid, sname, chan)
+            produced.setdefault(sname, []).append(m)
+            if habit == "plain":
+                stream.write(m + "\n")
+            else:
+                # a progress display: control sequence, a bit of text, the marker, more control sequences
+                stream.write(rng.choice(CONTROL) + "[####  ] 40% " + rng.choice(CONTROL) + m + rng.choice(CONTROL) + " done" + rng.choice(CONTROL) + "\n")
+    args = case["args"] + ["--junit", "--junit-directory", outdir]
+    c2 = dict(case, args=args, output_habit=habit)
+    try:
+        def reporters(config):
+            config.base_dir = os.getcwd()       # (what Runner.setup_paths() does for a run from the command line)
+            return [JUnitReporter(config)]
+        obs = lab.run(case["program"], args=args, step_plugins=[step_plugin], reporters=reporters)
+        if obs.escaped is not None:
+            mon.check("junit.captured_output_of_a_failing_scenario_is_in_its_test_case", False, lambda: RB.witness(c2, escaped=repr(obs.escaped)))
+            return
+        import xml.etree.ElementTree as ET
+        texts = {}
+        for fn in sorted(os.listdir(outdir)):
+            if fn.endswith(".xml"):
+                try:
+                    root = ET.parse(os.path.join(outdir, fn)).getroot()
+                except Exception as ex:
+                    mon.check("junit.captured_output_of_a_failing_scenario_is_in_its_test_case", False, lambda: RB.witness(c2, file=fn, error=repr(ex)))
+                    return
+                for tc in root.iter("testcase"):
+                    texts.setdefault(tc.get("name"), []).append("".join(tc.itertext()))
+        mon.case(("junit-report", RB.strip_case(c2)), True)
+        mon.seen("junit_output_habit", habit)
+        for sname, marks in produced.items():
+            st = obs.elem_status.get(sname)
+            if st not in ("failed", "error") or len(texts.get(sname, [])) != 1:
+                continue
+            body = texts[sname][0]
+            missing = [m for m in marks if m not in body]
+            mon.check("junit.captured_output_of_a_failing_scenario_is_in_its_test_case", not missing,
+                      lambda: RB.witness(c2, scenario=sname, status=st, missing=missing[:6], test_case_text=body[-500:]))
+    finally:
+        shutil.rmtree(outdir, ignore_errors=True)
+
+
 def run(spec, mon):
     from ..lab.inproc import RunLab
     lab = RunLab()
@@ -488,6 +558,8 @@ def run(spec, mon):
     for i in range(n):
         gen = {"p_nonpass": 0.35, "max_features": 2, "max_steps": 3, "p_stepless": 0.0,
                "weights": {"ki": 0.4, "fail": 2.0, "error": 2.0}}
+        if i % 4 == 1:
+            gen.update({"p_table": 0.35, "p_doc": 0.5})      # many steps -- failing ones too -- with a doc-string or a table
         case = RB.gen_case(rng, gen=gen, p_stop=0.1, p_dry=0.0, p_noskipped=0.3, tags=(i % 3 == 0))
         a, b, c = combos[i % 8]
         extra = []
@@ -562,6 +634,9 @@ def run(spec, mon):
         run_case(lab, mon, case, rng, sample=(i == 0 and spec["shard"] == 0))
     for i in range(12 if tier == "quick" else 400):
         capture_output_helper(mon, rng)
+    lab._state = None
+    for i in range(6 if tier == "quick" else 200):
+        junit_report_case(lab, mon, rng)
     for i in range(1 if tier == "quick" else 30):
         case = RB.gen_case(rng, gen={"p_nonpass": 0.3, "max_features": 1, "outcomes": [o for o in OUTCOMES if o != "ki"]},
                            p_stop=0, p_dry=0, tags=False)
